@@ -728,91 +728,12 @@ fn emit(out: &mut Out, stream: &str, id: &mut u64, rq: &Req, a: Answer, delta: O
 
 // ------------------------------------------------------------ HTTP/2
 
-/// The same requests over HTTP/2 (prior knowledge, plain port).  A body framed with
-/// content-length (`Framing::Cl`) is sent as one sized body; a body that the HTTP/1.1
-/// streams send chunked is sent as a stream of DATA frames with NO content-length (the
-/// chunk splits become frame boundaries): HTTP/2 delimits a body by END_STREAM alone.
-fn h2_batch(rt: &tokio::runtime::Runtime, addr: std::net::SocketAddr, reqs: &[Req]) -> Vec<Answer> {
-    use http_body_util::BodyExt;
-    use hyper_util::rt::{TokioExecutor, TokioIo};
-    type Bx = http_body_util::combinators::BoxBody<bytes::Bytes, std::convert::Infallible>;
-    rt.block_on(async {
-        let mut answers: Vec<Answer> = reqs.iter().map(|_| Answer { port: 0, resp: None, resent: 0 }).collect();
-        let Ok(tcp) = tokio::net::TcpStream::connect(addr).await else { return answers };
-        let port = tcp.local_addr().map(|a| a.port()).unwrap_or(0);
-        let Ok((mut sender, conn)) =
-            hyper::client::conn::http2::handshake::<_, _, Bx>(TokioExecutor::new(), TokioIo::new(tcp)).await
-        else {
-            return answers;
-        };
-        let conn_task = tokio::spawn(conn);
-        let mut futs = Vec::new();
-        for rq in reqs {
-            let uri = format!("http://localhost{}", String::from_utf8_lossy(&rq.target));
-            let mut b = http::Request::builder().method(rq.method).uri(uri).header("x-nonce", rq.nonce.as_str());
-            if let Some(ct) = &rq.ct {
-                b = b.header("content-type", ct.as_slice());
-            }
-            let body: Bx = match &rq.framing {
-                Framing::None => http_body_util::Empty::<bytes::Bytes>::new().boxed(),
-                Framing::Cl => http_body_util::Full::new(bytes::Bytes::from(rq.payload.clone())).boxed(),
-                Framing::Ch { splits, .. } => {
-                    let mut frames: Vec<Result<hyper::body::Frame<bytes::Bytes>, std::convert::Infallible>> = Vec::new();
-                    let mut rest: &[u8] = &rq.payload;
-                    for n in splits {
-                        let k = (*n).min(rest.len());
-                        if k > 0 {
-                            frames.push(Ok(hyper::body::Frame::data(bytes::Bytes::copy_from_slice(&rest[..k]))));
-                        }
-                        rest = &rest[k..];
-                    }
-                    if !rest.is_empty() {
-                        frames.push(Ok(hyper::body::Frame::data(bytes::Bytes::copy_from_slice(rest))));
-                    }
-                    http_body_util::StreamBody::new(futures::stream::iter(frames)).boxed()
-                }
-            };
-            let Ok(req) = b.body(body) else {
-                futs.push(None);
-                continue;
-            };
-            if sender.ready().await.is_err() {
-                futs.push(None);
-                continue;
-            }
-            futs.push(Some(sender.send_request(req)));
-        }
-        for (i, f) in futs.into_iter().enumerate() {
-            let Some(f) = f else { continue };
-            answers[i].port = port;
-            if let Ok(Ok(rsp)) = tokio::time::timeout(std::time::Duration::from_secs(20), f).await {
-                let mut raw = RawResponse::default();
-                raw.status = rsp.status().as_u16();
-                for (n, v) in rsp.headers() {
-                    raw.headers.push((n.as_str().to_string(), String::from_utf8_lossy(v.as_bytes()).to_string()));
-                }
-                if let Ok(Ok(body)) = tokio::time::timeout(std::time::Duration::from_secs(20), rsp.into_body().collect()).await {
-                    raw.body = body.to_bytes().to_vec();
-                    raw.well_formed = true;
-                }
-                answers[i].resp = Some(raw);
-            }
-        }
-        drop(sender);
-        conn_task.abort();
-        answers
-    })
-}
-
 /// `emit` for HTTP/2: the handler sees the absolute request URI (`http://localhost/...`);
 /// the request target is what follows the authority.
 fn emit_h2(out: &mut Out, id: &mut u64, rq: &Req, a: Answer) -> bool {
     *id += 1;
     let mut g = digest(a.resp);
-    let prefix = hex(b"http://localhost");
-    if g.echo.u.starts_with(&prefix) {
-        g.echo.u = g.echo.u[prefix.len()..].to_string();
-    }
+    h2_normalise_echo(&mut g);
     out.line(&format!("{} => {}", rq.line_input("h2", *id), g.line_output(a.port, "na", "r0")));
     g.status == 200
 }
@@ -1282,17 +1203,7 @@ fn main() {
         let mut reqs: Vec<Req> = Vec::new();
         while reqs.len() < 8 {
             let rq = gen_req(&mut rng);
-            // only what an HTTP/2 client can express: a request target that is a URI
-            let ok_target = std::str::from_utf8(&rq.target)
-                .ok()
-                .map(|t| format!("http://localhost{}", t).parse::<http::Uri>().is_ok())
-                .unwrap_or(false);
-            let ok_ct = rq.ct.as_ref().map(|c| http::HeaderValue::from_bytes(c).is_ok()).unwrap_or(true);
-            let plain_chunks = match &rq.framing {
-                Framing::Ch { exts, last_ext, trailers, .. } => exts.iter().all(|e| e.is_empty()) && last_ext.is_empty() && trailers.is_empty(),
-                _ => true,
-            };
-            if ok_target && ok_ct && plain_chunks {
+            if h2_expressible(&rq) {
                 reqs.push(rq);
             }
         }
